@@ -833,20 +833,17 @@ impl<'env> Executor<'env> {
                 }
                 #[cfg(feature = "multi_template")]
                 Instruction::FastSuper => {
-                    #[cfg(not(feature = "verif_hooks"))]
-                    ctx_ok!(Self::perform_super(state, out, false));
                     #[cfg(feature = "verif_hooks")]
-                    {
-                        let verif_before = state.verif_snapshot();
-                        let verif_rv = Self::perform_super(state, out, false);
-                        crate::verif_hooks::balance::nested(
-                            "super",
-                            verif_rv.is_ok(),
-                            verif_before,
-                            state.verif_snapshot(),
-                        );
-                        ctx_ok!(verif_rv);
-                    }
+                    let verif_before = state.verif_snapshot();
+                    let rv = Self::perform_super(state, out, false);
+                    #[cfg(feature = "verif_hooks")]
+                    crate::verif_hooks::balance::nested(
+                        "super",
+                        rv.is_ok(),
+                        verif_before,
+                        state.verif_snapshot(),
+                    );
+                    ctx_ok!(rv);
                 }
                 Instruction::FastRecurse => match state.ctx.current_loop() {
                     Some(l) => recurse_loop!(false, &l.object),
@@ -890,20 +887,17 @@ impl<'env> Executor<'env> {
                 #[cfg(feature = "multi_template")]
                 Instruction::Include(ignore_missing) => {
                     a = stack.pop();
-                    #[cfg(not(feature = "verif_hooks"))]
-                    ctx_ok!(Self::perform_include(a, state, out, *ignore_missing));
                     #[cfg(feature = "verif_hooks")]
-                    {
-                        let verif_before = state.verif_snapshot();
-                        let verif_rv = Self::perform_include(a, state, out, *ignore_missing);
-                        crate::verif_hooks::balance::nested(
-                            "include",
-                            verif_rv.is_ok(),
-                            verif_before,
-                            state.verif_snapshot(),
-                        );
-                        ctx_ok!(verif_rv);
-                    }
+                    let verif_before = state.verif_snapshot();
+                    let rv = Self::perform_include(a, state, out, *ignore_missing);
+                    #[cfg(feature = "verif_hooks")]
+                    crate::verif_hooks::balance::nested(
+                        "include",
+                        rv.is_ok(),
+                        verif_before,
+                        state.verif_snapshot(),
+                    );
+                    ctx_ok!(rv);
                 }
                 #[cfg(feature = "multi_template")]
                 Instruction::ExportLocals => {
@@ -920,20 +914,17 @@ impl<'env> Executor<'env> {
                 #[cfg(feature = "multi_template")]
                 Instruction::CallBlock(name) => {
                     if parent_instructions.is_none() && !out.is_discarding() {
-                        #[cfg(not(feature = "verif_hooks"))]
-                        ctx_ok!(Self::call_block(name, state, out));
                         #[cfg(feature = "verif_hooks")]
-                        {
-                            let verif_before = state.verif_snapshot();
-                            let verif_rv = Self::call_block(name, state, out);
-                            crate::verif_hooks::balance::nested(
-                                "call_block",
-                                verif_rv.is_ok(),
-                                verif_before,
-                                state.verif_snapshot(),
-                            );
-                            ctx_ok!(verif_rv);
-                        }
+                        let verif_before = state.verif_snapshot();
+                        let rv = Self::call_block(name, state, out);
+                        #[cfg(feature = "verif_hooks")]
+                        crate::verif_hooks::balance::nested(
+                            "call_block",
+                            rv.is_ok(),
+                            verif_before,
+                            state.verif_snapshot(),
+                        );
+                        ctx_ok!(rv);
                     }
                 }
                 #[cfg(feature = "macros")]
